@@ -25,8 +25,8 @@ def rescale_box(
         function to map from the rescaled box to the original.
     """
 
-    min = jnp.broadcast_to(min, box.shape)
-    max = jnp.broadcast_to(max, box.shape)
+    min = jnp.broadcast_to(jnp.asarray(min, dtype=float), box.shape)
+    max = jnp.broadcast_to(jnp.asarray(max, dtype=float), box.shape)
 
     assert jnp.all(min <= max)
     assert jnp.all(box.low <= box.high)
